@@ -305,6 +305,12 @@ def _chars(cs):
     return "".join(sorted(cs))
 
 
+# kinds whose parseImpl/postParse hand a plain str/list (not a ParseResults) to ParseResults(tokens, name, ...)
+PLAIN_RESULT_KINDS = {"lit", "lit1", "empty", "errorStop", "noMatch", "caselessLit", "keyword", "word", "charsNotIn",
+                      "stringStart", "stringEnd", "lineStart", "lineEnd", "wordStart", "wordEnd", "notAny", "group",
+                      "suppress"}
+
+
 def extract(b: Built, root, allow_fb=False):
     """returns (list of node S-expressions, root index). The caller must have streamlined `root`.
     allow_fb: accept infix_notation's `_FB` lookahead objects; they are emitted with kind `followedBy` and their
@@ -421,17 +427,23 @@ def extract_multi(b: Built, roots, allow_fb=False):
         acts = []
         # results-name binding of _parseNoCache (core.py:861-863), and again after each token-replacing action
         # (core.py:896-904): pseudo-action `name` of the model
-        name_act = ([Sym("name"), str(e.resultsName), bool(e.modalResults), bool(e.saveAsList)]
-                    if e.resultsName else None)
-        if name_act:
+        # `name`: the tokens handed to ParseResults(tokens, name, ..) are a ParseResults (the combinators pass their
+        # sub-results on); `nameL`: they are a plain str/list - leaves, the postParse of Group/Suppress, NotAny's `[]`,
+        # a named Located's `[ret_tokens]`, and whatever list a token-replacing action returns.
+        if e.resultsName:
+            plain = str(kind[0]) in PLAIN_RESULT_KINDS or str(kind[0]) == "located"
+            name_act = [Sym("nameL" if plain else "name"), str(e.resultsName), bool(e.modalResults), bool(e.saveAsList)]
+            name_act_l = [Sym("nameL")] + name_act[1:]
             acts.append(name_act)
+        else:
+            name_act = name_act_l = None
         for w in e.parseAction:
             tag = b.act_tags.get(id(w))
             if tag is None:
                 raise Unsupported("foreign parse action")
             acts.append([Sym(tag[0])] + list(tag[1:]))
             if name_act and tag[0] in ("const", "drop", "rev", "dup"):
-                acts.append(name_act)
+                acts.append(name_act_l)
         nodes.append([kind, bool(e.skipWhitespace), _chars(e.whiteChars), bool(e.callPreparse), bool(e.mayIndexError),
                       [visit(x) for x in e.ignoreExprs], acts, bool(e.callDuringTry), len(str(e)),
                       bool(e.resultsName)])
